@@ -480,6 +480,11 @@ class Program:
                 # an effect that is an Evaluatable with an option-valued parameter (e.g. an audit step reading a tag)
                 efn = make_step_fn(f"eff_{name}_o{j}", ["p"], [self.ref(pn)], _effect_step_impl(f"{name}#o{j}"))
                 kw["effects"].append(pipeline_step(efn))
+        for j, level in enumerate(n.get("log_effects", [])):
+            # labrea's own LogEffect (a log request at WARNING / ERROR level issued as an effect of the dataset)
+            import labrea.logging as _ll
+
+            kw.setdefault("effects", []).append(_ll.LogEffect(level, PROG_MODULE, f"log-effect {name}#{j}"))
         ck = n.get("cache", "default")
         factory = abstractdataset if n.get("abstract") else dataset
         if ck == "nocache":
